@@ -14,11 +14,22 @@
   A panic (overflow check of a checked build, failed assert, index out of range) cuts the trace; the theorems below
   are unconditional because C05 / C12 / C13 prove that these computations never panic.
 
+  Sections: (f) MAC-result / tag comparison, (c) Poly1305, (a) X25519, (b) Ed25519 keygen / signing, (e) ChaCha / Salsa,
+  (d) HMAC + hash-engine buffering.  Every section ends with a labelled NEGATIVE CONTROL: a deliberately leaky variant
+  for which the non-interference statement is refuted by a concrete pair of inputs (the instrumentation sees leaks),
+  and (b) shows the variable-time `verify` loops to have input-dependent traces (on public data).
+
   The optimising compiler may re-introduce branches (DESIGN 14.6, side observation of C19-5): these theorems speak for
   the source, the instruction tracer of the dynamic part speaks for the binary.
 -/
 import CxVerif.Proofs.LeakModelPoly
+import CxVerif.Proofs.LeakModelX25519
 import CxVerif.Proofs.Poly1305Stream
+import CxVerif.Props.C12.X25519
+import CxVerif.Proofs.LeakModelEd25519
+import CxVerif.Props.C13.Final
+import CxVerif.Proofs.LeakModelSym
+import CxVerif.Proofs.LeakModelHmac
 namespace Cx.Props.C19
 open Cx Cx.Impl.CT Cx.Impl.LeakModel Cx.Proofs.LeakModel
 
@@ -152,5 +163,416 @@ theorem branching_final_reduction_leaks :
     (by decide)
 
 end Poly1305
+
+/-! ## (a) X25519, general and fixed-base (`curve25519`, `curve25519_base`; `x25519::dh` / `x25519::base` are these)
+
+  public: the peer's point `p` (in fact the trace does not depend on it either).  secret: the 32-byte scalar `n`.
+  Instrumented: the clamping, the 255-iteration loop with the byte index `pos / 8` of every bit extraction, the two
+  masked swaps per iteration, the 18 field operations, the final swaps, the inversion chain (loop bounds of the
+  `square_repeatdly` calls), the multiplication and `to_bytes`. -/
+
+section X25519
+open Cx.Impl.X25519
+
+/-- erasure: `curve25519L` computes `Impl.X25519.curve25519` (C12: = X25519 of RFC 7748, never a panic) -/
+theorem curve25519_erasure (n p : Bytes) (hn : n.length = 32) (hp : p.length = 32) :
+    (curve25519L n p hn hp).val = curve25519 n p hn hp := curve25519L_val n p hn hp
+
+theorem curve25519_base_erasure (n : Bytes) (hn : n.length = 32) :
+    (curve25519_baseL n hn).val = curve25519_base n hn := curve25519_baseL_val n hn
+
+/-- the trace of `curve25519` is the closed constant `x25519T`, for EVERY scalar and every point (unconditional:
+    the computation never overflows, `Props.C12.curve25519_no_overflow`) -/
+theorem curve25519_trace (n p : Bytes) (hn : n.length = 32) (hp : p.length = 32) :
+    (curve25519L n p hn hp).tr = x25519T :=
+  (curve25519L_const n p hn hp).out (by rw [curve25519_erasure]; exact (Cx.Props.C12.curve25519_no_overflow n p hn hp).1)
+
+theorem curve25519_base_trace (n : Bytes) (hn : n.length = 32) : (curve25519_baseL n hn).tr = x25519T :=
+  (curve25519_baseL_const n hn).out
+    (by rw [curve25519_base_erasure]; exact (Cx.Props.C12.curve25519_no_overflow n n hn hn).2)
+
+/-- **C19 (X25519, general)**: the trace is the same for every secret scalar (and every public point) -/
+theorem curve25519_noninterference (n n' p : Bytes) (hn : n.length = 32) (hn' : n'.length = 32) (hp : p.length = 32) :
+    (curve25519L n p hn hp).tr = (curve25519L n' p hn' hp).tr := by
+  rw [curve25519_trace, curve25519_trace]
+
+/-- **C19 (X25519, fixed base)** -/
+theorem curve25519_base_noninterference (n n' : Bytes) (hn : n.length = 32) (hn' : n'.length = 32) :
+    (curve25519_baseL n hn).tr = (curve25519_baseL n' hn').tr := by
+  rw [curve25519_base_trace, curve25519_base_trace]
+
+/-- test (evaluation): the constant trace has 1 + 255 + 9 events and begins with the loop bound and byte 31 -/
+example : x25519T.length = 265 ∧ x25519T.take 3 = [.loopBound 255, .index 31, .index 31] := by decide +kernel
+
+/-- NEGATIVE CONTROL (test by evaluation): a ladder step that branches on `swap ^ bit` instead of the masked swap is
+    NOT non-interferent — two scalars that differ in bit 254 give different traces for the first iteration -/
+theorem branching_ladder_step_leaks :
+    ¬ (∀ (e e' : Bytes) (he : e.length = 32) (he' : e'.length = 32) (s : Ladder),
+        (ladderStepBranchL e he A24P1 (.small NINE) s 254 (by omega)).tr =
+        (ladderStepBranchL e' he' A24P1 (.small NINE) s 254 (by omega)).tr) := by
+  intro h
+  exact absurd (h (List.replicate 32 0x00) (List.replicate 32 0xff) (by decide) (by decide)
+    ⟨Impl.Fe64.Fe.ONE, Impl.Fe64.Fe.ZERO, Impl.Fe64.Fe.ONE, Impl.Fe64.Fe.ONE, u64_ct_zero 1⟩) (by decide +kernel)
+
+end X25519
+
+/-! ## (b) Ed25519 key generation and signing (`keypair`, `signature`, `signature_extended`)
+
+  public: the message (its LENGTH is all the trace depends on) and the public-key half of the keypair.
+  secret: the 32-byte seed, hence the secret scalar `a`, the prefix, and the nonce scalar `r = H(prefix ‖ M)`.
+  Instrumented: the hash calls (lengths), the clamp, `Scalar::nibbles` (index of every word and digit), the signed
+  recoding loop, both comb loops with `GePrecomp::select` (debug assertion, row index, the eight masked `maybe_set`s
+  and the masked negation), the four doublings, `Ge::to_bytes` (inversion chain, `is_negative`), the Barrett
+  reductions and `muladd` (straight-line, masks).
+
+  FINDING of the source-level model: `GeAffine::to_bytes` contains `if self.x.is_negative() { 1 } else { 0 }`, a
+  branch on a value computed from the secret.  It is the ONLY such event; its condition is bit 255 of the encoding
+  that the function returns — of the PUBLIC KEY for `keypair`, of R (first half of the SIGNATURE) for `signature` —
+  i.e. it is declassified by the output (`keypairSign_is_public_key_bit`, `signatureSign_is_signature_bit`).  The
+  traces are therefore the same for all secrets that lead to the same value of that public bit; compilers turn this
+  `if` into a flag-to-integer move (the dynamic part of C19 sees identical instruction traces), but a source-level
+  statement must count it. -/
+
+section Ed25519
+open Cx.Impl.Ed25519 Cx.Impl.Ge
+
+/-- erasure: `keypairL` computes `Impl.Ed25519.keypair` (C13: = RFC 8032 key generation, never a panic) -/
+theorem keypair_erasure (seed : Bytes) : (keypairL seed).val = keypair seed := keypairL_val seed
+
+/-- erasure of the fixed-base multiplication and of the point encoding -/
+theorem scalarmult_base_erasure (a : Impl.Scalar64.Scalar) : (scalarmult_baseL a).val = Ge.scalarmult_base a :=
+  scalarmult_baseL_val a
+theorem ge_to_bytes_erasure (g : Ge) : (ge_to_bytesL g).val = g.to_bytes := ge_to_bytesL_val g
+theorem select_erasure (pos : Nat) (b : Int) : (selectL pos b).val = GePrecomp.select pos b := selectL_val pos b
+
+/-- the comb (nibbles, recoding, 64 masked table selections, additions, doublings) has a CONSTANT trace whenever it
+    does not panic: in particular the secret digit never reaches an index or a branch -/
+theorem scalarmult_base_trace (a : Impl.Scalar64.Scalar) (h : (Ge.scalarmult_base a).isSome) :
+    (scalarmult_baseL a).tr = scalarmultT :=
+  (scalarmult_baseL_const a).out (by rw [scalarmult_baseL_val]; exact h)
+
+/-- `select(pos, b)` reads row `pos` and all eight entries, whatever the secret digit `b ∈ [-8, 8]` -/
+theorem select_noninterference (pos : Nat) (b b' : Int) (h : (GePrecomp.select pos b).isSome)
+    (h' : (GePrecomp.select pos b').isSome) : (selectL pos b).tr = (selectL pos b').tr :=
+  (selectL_const pos b).eq_of (selectL_const pos b') (by rw [selectL_val]; exact h) (by rw [selectL_val]; exact h')
+
+/-- the trace of `keypair` is `keypairT` of ONE bit, the sign of x of the public point, for every 32-byte seed
+    (unconditional: `Props.C13.keypair_is_rfc8032`) -/
+theorem keypair_trace (seed : Bytes) (hs : seed.length = 32) :
+    (keypairL seed).tr = keypairT (keypairSign seed) :=
+  (keypairL_const seed).out (by rw [keypairL_val, Cx.Props.C13.keypair_is_rfc8032 seed hs]; rfl)
+
+/-- that bit is bit 255 of the public key which `keypair` returns -/
+theorem keypairSign_is_public_key_bit (seed kp pk : Bytes) (h : keypair seed = some (kp, pk)) :
+    keypairSign seed = topBit pk := keypairSign_eq_topBit seed kp pk h
+
+/-- **C19 (Ed25519 key generation)**: two seeds whose PUBLIC keys agree in bit 255 have the same trace -/
+theorem keypair_noninterference (seed seed' kp kp' pk pk' : Bytes) (hs : seed.length = 32) (hs' : seed'.length = 32)
+    (h : keypair seed = some (kp, pk)) (h' : keypair seed' = some (kp', pk')) (hb : topBit pk = topBit pk') :
+    (keypairL seed).tr = (keypairL seed').tr := by
+  rw [keypair_trace seed hs, keypair_trace seed' hs', keypairSign_eq_topBit seed kp pk h,
+    keypairSign_eq_topBit seed' kp' pk' h', hb]
+
+/-- all events before the last one are the same for EVERY seed -/
+theorem keypair_trace_prefix_constant (seed seed' : Bytes) (hs : seed.length = 32) (hs' : seed'.length = 32) :
+    (keypairL seed).tr.dropLast = (keypairL seed').tr.dropLast := by
+  rw [keypair_trace seed hs, keypair_trace seed' hs']
+  simp only [keypairT, publicT, toBytesT, ← List.append_assoc, List.dropLast_concat]
+
+/-- erasure: `signatureL` computes `Impl.Ed25519.signature` (C13: = RFC 8032 signing) -/
+theorem signature_erasure (msg kp : Bytes) : (signatureL msg kp).val = signature msg kp := signatureL_val msg kp
+
+/-- the trace of `signature` is `signatureT` of the message LENGTH and of ONE bit, the sign of x of R -/
+theorem signature_trace (seed pk msg : Bytes) (hs : seed.length = 32) (hpk : pk.length = 32)
+    (hm : msg.length < 2 ^ 124) :
+    (signatureL msg (seed ++ pk)).tr = signatureT msg.length (signatureSign msg (seed ++ pk)) :=
+  (signatureL_const msg (seed ++ pk)).out
+    (by rw [signatureL_val, Cx.Props.C13.signature_with_any_public_half seed pk msg hs hpk hm]; rfl)
+
+/-- that bit is bit 255 of the signature's first half R -/
+theorem signatureSign_is_signature_bit (msg kp sig : Bytes) (h : signature msg kp = some sig) :
+    signatureSign msg kp = topBit sig := signatureSign_eq_topBit msg kp sig h
+
+/-- **C19 (Ed25519 signing)**: for messages of the same length, two signing runs (any seeds, any messages, any
+    public-key halves) whose SIGNATURES agree in bit 255 of R have the same trace — the secret scalar, the prefix and
+    the nonce scalar r = H(prefix ‖ M) do not influence it otherwise -/
+theorem signature_noninterference (seed seed' pk pk' msg msg' sig sig' : Bytes)
+    (hs : seed.length = 32) (hs' : seed'.length = 32) (hpk : pk.length = 32) (hpk' : pk'.length = 32)
+    (hm : msg.length < 2 ^ 124) (hl : msg.length = msg'.length)
+    (h : signature msg (seed ++ pk) = some sig) (h' : signature msg' (seed' ++ pk') = some sig')
+    (hb : topBit sig = topBit sig') :
+    (signatureL msg (seed ++ pk)).tr = (signatureL msg' (seed' ++ pk')).tr := by
+  rw [signature_trace seed pk msg hs hpk hm, signature_trace seed' pk' msg' hs' hpk' (hl ▸ hm),
+    signatureSign_eq_topBit _ _ _ h, signatureSign_eq_topBit _ _ _ h', hb, hl]
+
+/-- all events before the sign branch, and all after it, are the same for every seed and every message of that length -/
+theorem signature_trace_shape (seed pk msg : Bytes) (hs : seed.length = 32) (hpk : pk.length = 32)
+    (hm : msg.length < 2 ^ 124) :
+    ∃ b : Bool, (signatureL msg (seed ++ pk)).tr =
+      extendedSecretT ++ [.length 32, .length msg.length] ++ scalarmultT ++ invertT ++ [.branch b] ++
+        [.length 64, .length msg.length] :=
+  ⟨signatureSign msg (seed ++ pk), by
+    rw [signature_trace seed pk msg hs hpk hm]
+    simp only [signatureT, signTailT, toBytesT, List.append_assoc]⟩
+
+/-- `signature_extended` (secret: the 64-byte extended key): erasure, and the trace as a function of the message
+    length and the two public sign bits (of A and of R) -/
+theorem signature_extended_erasure (msg ext : Bytes) :
+    (signature_extendedL msg ext).val = signature_extended msg ext := signature_extendedL_val msg ext
+
+theorem signature_extended_trace (msg ext : Bytes) (hl : ext.length = 64) (hlt : leNat (ext.take 32) < 2 ^ 255)
+    (hm : msg.length < 2 ^ 124) :
+    (signature_extendedL msg ext).tr = signatureExtendedT msg.length (pkSign ext) (extendedSign msg ext) :=
+  (signature_extendedL_const msg ext hl).out
+    (by rw [signature_extendedL_val, Cx.Props.C13.signature_extended_is_spec msg ext hl hlt hm]; rfl)
+
+/-- non-vacuity of the hypotheses of `select_noninterference`: two secret digits for which the model does not panic -/
+example : (GePrecomp.select 3 (-5)).isSome ∧ (GePrecomp.select 3 7).isSome := by decide +kernel
+
+/-- non-vacuity of the hypotheses -/
+example : (List.replicate 32 (7 : UInt8)).length = 32 ∧ (List.replicate 300 (1 : UInt8)).length < 2 ^ 124 :=
+  ⟨List.length_replicate, by rw [List.length_replicate]; decide⟩
+
+/-- test (evaluation): size of the constant part -/
+example : scalarmultT.length = 69 + 2 + 32 * 3 + 1 + 32 * 3 := by decide +kernel
+
+/-- NEGATIVE CONTROL (test by evaluation): a table selection with an early-exit search is NOT non-interferent —
+    the digits 1 and 3 give different traces -/
+theorem earlyExit_select_leaks :
+    ¬ (∀ (row : List GePrecomp) (d d' : Nat),
+        (selectEarlyExitL row d 8 0).tr = (selectEarlyExitL row d' 8 0).tr) := by
+  intro h
+  exact absurd (h [GePrecomp.ZERO, GePrecomp.ZERO, GePrecomp.ZERO] 1 3) (by decide +kernel)
+
+/-- the variable-time loops of `double_scalarmult_vartime` (`verify`; PUBLIC digits): erasure … -/
+theorem dsm_erasure (ai : List GeCached) (aslide bslide : List Int) :
+    (dsmMainL ai aslide bslide).val =
+      (match topIndex aslide bslide 256 with
+       | none => pure GePartial.ZERO
+       | some i => dsmLoop ai aslide bslide (i + 1) GePartial.ZERO) := dsmMainL_val ai aslide bslide
+
+/-- … and SENSITIVITY of the instrumentation (test by evaluation): the first loop alone already has different
+    traces for different public digit strings (`verify` is variable-time, on public data) -/
+theorem vartime_loop_trace_depends_on_public_digits :
+    (topIndexL [0, 0, 1] [0, 0, 0] 3).tr ≠ (topIndexL [0, 1, 0] [0, 0, 0] 3).tr := by decide +kernel
+
+end Ed25519
+
+/-! ## (e) ChaCha / Salsa encryption (`process`, `process_mut` of `ChaCha<R>`, `XChaCha<R>`, `ChaChaOriginal<R>`,
+       `Salsa<R>`, `XSalsa<R>`; portable and SSE2 ChaCha engines)
+
+  public: the LENGTH of the data, the position in the stream (`offset`, block counter), the nonce.
+  secret: the key (state words 4..11 resp. the Salsa key words) and the plaintext.
+  Instrumented: the `while i < len` test, `if self.offset == 64`, `update` (`rounds` = a `ROUNDS/2`-iteration loop of
+  additions, xors and constant rotations; `add_back`; `output_bytes`; the counter increment with its carry BRANCH in
+  `increment64` / Salsa `increment`), `min`, the slice lengths handed to `xor_keystream_mut`.  The theorems are
+  unconditional (no "does not panic" premise): every refusal (`offset > 64`, length mismatch) is decided by public data. -/
+
+section Stream
+open Cx.Impl Cx.Impl.StreamCtx Cx.Impl.ChaCha
+
+/-- erasure, generic: for every instrumented generator that satisfies `BlockGenLeak` -/
+theorem process_erasure {σ : Type} {g : BlockGen σ} {G : BlockGenL σ} (L : BlockGenLeak g G) (c : Ctx σ)
+    (input : Bytes) (outputLen : Nat) : (processL G c input outputLen).val = process g c input outputLen :=
+  processL_val L c input outputLen
+
+theorem process_mut_erasure {σ : Type} {g : BlockGen σ} {G : BlockGenL σ} (L : BlockGenLeak g G) (c : Ctx σ)
+    (data : Bytes) : (process_mutL G c data).val = process_mut g c data :=
+  process_mutL_val L _ c data (Nat.le_refl _)
+
+/-- erasure for the concrete context types (`ChaCha.process … = StreamCtx.process (gen …)` by definition) -/
+theorem chacha20_process_erasure (R : Nat) (c : Ctx W16) (input : Bytes) (n : Nat) :
+    (processL (ChaChaL.refGenL R) c input n).val = ChaCha.process referenceEngine R c input n :=
+  processL_val (refLeak R) c input n
+
+theorem chacha20_sse2_process_erasure (R : Nat) (c : Ctx Sse2.State) (input : Bytes) (n : Nat) :
+    (processL (ChaChaL.sse2GenL R) c input n).val = ChaCha.process sse2Engine R c input n :=
+  processL_val (sse2Leak R) c input n
+
+theorem xchacha20_process_erasure (R : Nat) (c : Ctx W16) (input : Bytes) (n : Nat) :
+    (processL (ChaChaL.refGenL R) c input n).val = XChaCha.process referenceEngine R c input n :=
+  processL_val (refLeak R) c input n
+
+theorem chachaOriginal_process_erasure (R : Nat) (c : Ctx W16) (input : Bytes) (n : Nat) :
+    (processL (ChaChaL.refGen64L R) c input n).val = ChaChaOriginal.process referenceEngine R c input n :=
+  processL_val (refLeak64 R) c input n
+
+theorem chachaOriginal_sse2_process_erasure (R : Nat) (c : Ctx Sse2.State) (input : Bytes) (n : Nat) :
+    (processL (ChaChaL.sse2Gen64L R) c input n).val = ChaChaOriginal.process sse2Engine R c input n :=
+  processL_val (sse2Leak64 R) c input n
+
+theorem salsa20_process_erasure (R : Nat) (c : Ctx W16) (input : Bytes) (n : Nat) :
+    (processL (SalsaL.genL R) c input n).val = Salsa.Salsa.process R c input n :=
+  processL_val (salsaLeak R) c input n
+
+/-- **C19 (ChaCha20 / XChaCha20, portable engine)**: two contexts at the same stream position (whatever their keys,
+    nonces and counters) and inputs of the same length give the same trace -/
+theorem chacha20_process_noninterference (R : Nat) (c c' : Ctx W16) (input input' : Bytes) (n : Nat)
+    (hl : input.length = input'.length) (ho : c.offset = c'.offset) (hb : c.output.length = c'.output.length) :
+    (processL (ChaChaL.refGenL R) c input n).tr = (processL (ChaChaL.refGenL R) c' input' n).tr :=
+  processL_ni (refLeak R) c c' input input' n hl ⟨ho, hb, rfl⟩
+
+/-- the same on the SSE2 engine -/
+theorem chacha20_sse2_process_noninterference (R : Nat) (c c' : Ctx Sse2.State) (input input' : Bytes) (n : Nat)
+    (hl : input.length = input'.length) (ho : c.offset = c'.offset) (hb : c.output.length = c'.output.length) :
+    (processL (ChaChaL.sse2GenL R) c input n).tr = (processL (ChaChaL.sse2GenL R) c' input' n).tr :=
+  processL_ni (sse2Leak R) c c' input input' n hl ⟨ho, hb, rfl⟩
+
+/-- in particular for freshly created contexts: every key (and nonce) gives the same trace -/
+theorem chacha20_encrypt_noninterference (R : Nat) (key key' nonce nonce' : Bytes) (c c' : Ctx W16)
+    (input input' : Bytes) (n : Nat) (h : ChaCha.new referenceEngine R key nonce = .ok c)
+    (h' : ChaCha.new referenceEngine R key' nonce' = .ok c') (hl : input.length = input'.length) :
+    (processL (ChaChaL.refGenL R) c input n).tr = (processL (ChaChaL.refGenL R) c' input' n).tr := by
+  obtain ⟨s, rfl⟩ := chacha_new_ok _ _ _ _ _ h
+  obtain ⟨s', rfl⟩ := chacha_new_ok _ _ _ _ _ h'
+  exact processL_ni (refLeak R) _ _ input input' n hl (mk_lowEq_unit (refLeak R) s s' rfl)
+
+theorem chacha20_sse2_encrypt_noninterference (R : Nat) (key key' nonce nonce' : Bytes) (c c' : Ctx Sse2.State)
+    (input input' : Bytes) (n : Nat) (h : ChaCha.new sse2Engine R key nonce = .ok c)
+    (h' : ChaCha.new sse2Engine R key' nonce' = .ok c') (hl : input.length = input'.length) :
+    (processL (ChaChaL.sse2GenL R) c input n).tr = (processL (ChaChaL.sse2GenL R) c' input' n).tr := by
+  obtain ⟨s, rfl⟩ := chacha_new_ok _ _ _ _ _ h
+  obtain ⟨s', rfl⟩ := chacha_new_ok _ _ _ _ _ h'
+  exact processL_ni (sse2Leak R) _ _ input input' n hl (mk_lowEq_unit (sse2Leak R) s s' rfl)
+
+theorem xchacha20_encrypt_noninterference (R : Nat) (key key' nonce nonce' : Bytes) (c c' : Ctx W16)
+    (input input' : Bytes) (n : Nat) (h : XChaCha.new referenceEngine R key nonce = .ok c)
+    (h' : XChaCha.new referenceEngine R key' nonce' = .ok c') (hl : input.length = input'.length) :
+    (processL (ChaChaL.refGenL R) c input n).tr = (processL (ChaChaL.refGenL R) c' input' n).tr := by
+  obtain ⟨s, rfl⟩ := xchacha_new_ok _ _ _ _ _ h
+  obtain ⟨s', rfl⟩ := xchacha_new_ok _ _ _ _ _ h'
+  exact processL_ni (refLeak R) _ _ input input' n hl (mk_lowEq_unit (refLeak R) s s' rfl)
+
+/-- **C19 (original ChaCha with the 64-bit counter)**: additionally the low counter word must agree — it is the
+    public stream position; the carry into `state[13]` is a branch on it -/
+theorem chachaOriginal_process_noninterference (R : Nat) (c c' : Ctx W16) (input input' : Bytes) (n : Nat)
+    (hl : input.length = input'.length) (ho : c.offset = c'.offset) (hb : c.output.length = c'.output.length)
+    (hc : c.state.x12 = c'.state.x12) :
+    (processL (ChaChaL.refGen64L R) c input n).tr = (processL (ChaChaL.refGen64L R) c' input' n).tr :=
+  processL_ni (refLeak64 R) c c' input input' n hl ⟨ho, hb, hc⟩
+
+theorem chachaOriginal_sse2_process_noninterference (R : Nat) (c c' : Ctx Sse2.State) (input input' : Bytes) (n : Nat)
+    (hl : input.length = input'.length) (ho : c.offset = c'.offset) (hb : c.output.length = c'.output.length)
+    (hc : c.state.d.l0 = c'.state.d.l0) :
+    (processL (ChaChaL.sse2Gen64L R) c input n).tr = (processL (ChaChaL.sse2Gen64L R) c' input' n).tr :=
+  processL_ni (sse2Leak64 R) c c' input input' n hl ⟨ho, hb, hc⟩
+
+theorem chachaOriginal_encrypt_noninterference (R : Nat) (key key' nonce nonce' : Bytes) (c c' : Ctx W16)
+    (input input' : Bytes) (n : Nat) (h : ChaChaOriginal.new referenceEngine R key nonce = .ok c)
+    (h' : ChaChaOriginal.new referenceEngine R key' nonce' = .ok c') (hl : input.length = input'.length) :
+    (processL (ChaChaL.refGen64L R) c input n).tr = (processL (ChaChaL.refGen64L R) c' input' n).tr := by
+  obtain ⟨s, rfl, hs⟩ := chachaOriginal_new_ok _ _ _ _ h
+  obtain ⟨s', rfl, hs'⟩ := chachaOriginal_new_ok _ _ _ _ h'
+  exact processL_ni (refLeak64 R) _ _ input input' n hl
+    (mk_lowEq_unit (refLeak64 R) s s' (show s.x12 = s'.x12 by rw [hs, hs']))
+
+/-- **C19 (Salsa20 / XSalsa20)** -/
+theorem salsa20_process_noninterference (R : Nat) (c c' : Ctx W16) (input input' : Bytes) (n : Nat)
+    (hl : input.length = input'.length) (ho : c.offset = c'.offset) (hb : c.output.length = c'.output.length)
+    (hc : c.state.x8 = c'.state.x8) :
+    (processL (SalsaL.genL R) c input n).tr = (processL (SalsaL.genL R) c' input' n).tr :=
+  processL_ni (salsaLeak R) c c' input input' n hl ⟨ho, hb, hc⟩
+
+theorem salsa20_encrypt_noninterference (R : Nat) (key key' nonce nonce' : Bytes) (c c' : Ctx W16)
+    (input input' : Bytes) (n : Nat) (h : Salsa.Salsa.new R key nonce = .ok c)
+    (h' : Salsa.Salsa.new R key' nonce' = .ok c') (hl : input.length = input'.length) :
+    (processL (SalsaL.genL R) c input n).tr = (processL (SalsaL.genL R) c' input' n).tr := by
+  obtain ⟨s, rfl, hs⟩ := salsa_new_ok _ _ _ _ h
+  obtain ⟨s', rfl, hs'⟩ := salsa_new_ok _ _ _ _ h'
+  exact processL_ni (salsaLeak R) _ _ input input' n hl
+    (mk_lowEq_unit (salsaLeak R) s s' (show s.x8 = s'.x8 by rw [hs, hs']))
+
+/-- non-vacuity: a concrete key / nonce gives a context -/
+example : ∃ c, ChaCha.new referenceEngine 20 (List.replicate 32 7) (List.replicate 12 1) = .ok c := ⟨_, rfl⟩
+
+/-- NEGATIVE CONTROL (test by evaluation): a generator that looks a key byte up in a table is NOT non-interferent -/
+theorem sbox_block_leaks : ¬ (∀ s s' : W16, (sboxBlockL s).tr = (sboxBlockL s').tr) := by
+  intro h
+  exact absurd (h W16.zero { W16.zero with x4 := 1 }) (by decide)
+
+end Stream
+
+/-! ## (d) HMAC tag computation (`Hmac::new`, `input`, `result` / `raw_result`), generic in the digest; the buffering
+       of the Merkle–Damgård engines
+
+  public: the LENGTH of the key, the lengths of the `input` calls, the output length, the digest TYPE (block size,
+  output size) and the public shadow of its state.  secret: the key bytes (hence `i_key`, `o_key`) and the message.
+  Instrumented: `expand_key` (the test `key.len() <= bs`, the hash of a long key), `derive_key` (a loop over the block,
+  xor with the pad), `create_keys`, `new`, `input` (`assert!(!self.finished)`), `raw_result` (`if !self.finished`),
+  `result`.  The key only ever flows into `derive_key`'s xor and into `digest.input`.
+
+  The digest is a type parameter: what is needed of it is the explicit hypothesis record `DigestLeak` (it computes the
+  digest model; its events, its panics and its public shadow depend on the public shadow and on argument LENGTHS only).
+  For the MD engines the central piece of that hypothesis — `FixedBuffer::input`, the three buffering regimes — is
+  proved below (`fixedbuffer_input_*`); the assembly of a `DigestLeak` instance for a concrete engine (padding, length
+  field, the compression loop, the legacy wrapper) is NOT done: `hmac_*` are theorems about `hmac.rs` for every digest
+  that satisfies the record. -/
+
+section Hmac
+open Cx.Impl Cx.Impl.Digest Cx.Impl.Hmac
+variable {δ : Type} {D : DigestModel δ} {DL : DigestL δ}
+
+/-- erasure: the instrumented one-shot HMAC computes `Impl.Hmac.oneShot` (C08: = RFC 2104) -/
+theorem hmac_erasure (L : DigestLeak D DL) (d : δ) (key msg : Bytes) :
+    (hmacOneShotL D DL d key msg).val = oneShot D d key msg := hmacOneShotL_val L d key msg
+
+theorem hmac_new_erasure (L : DigestLeak D DL) (d : δ) (key : Bytes) :
+    (Hmac.newL D DL d key).val = Hmac.new D d key := Hmac.newL_val L d key
+theorem hmac_input_erasure (L : DigestLeak D DL) (h : Hmac δ) (data : Bytes) :
+    (Hmac.inputL DL h data).val = Hmac.input D h data := Hmac.inputL_val L h data
+theorem hmac_raw_result_erasure (L : DigestLeak D DL) (h : Hmac δ) (n : Nat) :
+    (Hmac.raw_resultL DL h n).val = Hmac.raw_result D h n := Hmac.raw_resultL_val L h n
+
+/-- **C19 (HMAC)**, `_partial`: with the same digest object, keys of the same length and messages of the same length
+    give the same trace — whatever the key bytes (short keys are padded, long keys hashed: the branch is on the LENGTH).
+    FULL statement (not proved): the same with `D := legacyDigest sha256Ctx` (… every digest of the crate) and NO
+    hypothesis `L`; missing: a `DigestLeak` instance for the concrete engines (see the section header). -/
+theorem hmac_noninterference_partial (L : DigestLeak D DL) (d : δ) (key key' msg msg' : Bytes)
+    (hk : key.length = key'.length) (hm : msg.length = msg'.length) :
+    (hmacOneShotL D DL d key msg).tr = (hmacOneShotL D DL d key' msg').tr :=
+  (hmacOneShotL_ni L d d key key' msg msg' rfl hk hm).tr
+
+/-- … and the two computations panic together (a refusal is decided by public data) -/
+theorem hmac_panics_are_public_partial (L : DigestLeak D DL) (d : δ) (key key' msg msg' : Bytes)
+    (hk : key.length = key'.length) (hm : msg.length = msg'.length) :
+    (oneShot D d key msg).isSome = (oneShot D d key' msg').isSome := by
+  rw [← hmac_erasure L, ← hmac_erasure L]
+  exact (hmacOneShotL_ni L d d key key' msg msg' rfl hk hm).both
+
+/-- the key schedule alone -/
+theorem hmac_new_noninterference_partial (L : DigestLeak D DL) (d : δ) (key key' : Bytes) (hk : key.length = key'.length) :
+    (Hmac.newL D DL d key).tr = (Hmac.newL D DL d key').tr := (Hmac.newL_ni L d d key key' rfl hk).tr
+
+/-- non-vacuity of `DigestLeak`: a (toy) digest object satisfies the record -/
+example : ∃ (D : DigestModel Bytes) (DL : DigestL Bytes), Nonempty (DigestLeak D DL) :=
+  ⟨{ input := fun d b => some (d ++ b), result := fun d n => some (d, zeros n), reset := fun _ => some [],
+     output_bits := fun _ => 256, block_size := fun _ => 64 },
+   { inputL := fun d b => LO.lift (some (d ++ b)), resultL := fun d n => LO.lift (some (d, zeros n)),
+     resetL := fun _ => LO.lift (some []) },
+   ⟨{ π := Nat, pub := fun d => d.length,
+      input_val := fun _ _ => LO.lift_val _, result_val := fun _ _ => LO.lift_val _, reset_val := fun _ => LO.lift_val _,
+      input_ni := fun d d' b b' h hb => NI.lift _ _ rfl (fun a a' ha ha' => by
+        cases ha; cases ha'; simp only [List.length_append]; rw [show d.length = d'.length from h, hb]),
+      result_ni := fun d d' n h => NI.lift _ _ rfl (fun a a' ha ha' => by cases ha; cases ha'; exact ⟨h, rfl⟩),
+      reset_ni := fun _ _ _ => NI.lift _ _ rfl (fun a a' ha ha' => by cases ha; cases ha'; rfl),
+      block_size_pub := fun _ _ _ => rfl, output_bits_pub := fun _ _ _ => rfl }⟩⟩
+
+/-- the MD engines' buffer: erasure of the instrumented `FixedBuffer::input` … -/
+theorem fixedbuffer_input_erasure {σ : Type} (N : Nat) (self : FixedBuffer) (inp : Bytes)
+    (funcL : σ → Bytes → LO σ) (func : σ → Bytes → Option σ) (hf : ∀ s b, (funcL s b).val = func s b) (st : σ) :
+    (FixedBuffer.inputL N self inp funcL st).val = FixedBuffer.input N self inp func st :=
+  FixedBuffer.inputL_val N self inp funcL func hf st
+
+/-- … and its non-interference: which of the three regimes runs, every slice bound and every refusal depend on the
+    fill `buffer_idx` and on `input.len()` only -/
+theorem fixedbuffer_input_noninterference {σ : Type} {R : σ → σ → Prop} (N : Nat) (b b' : FixedBuffer)
+    (inp inp' : Bytes) (funcL : σ → Bytes → LO σ)
+    (hf : ∀ s s' x x', R s s' → x.length = x'.length → NI (funcL s x) (funcL s' x') R) (st st' : σ)
+    (hb : b.buffer.length = b'.buffer.length) (hi : b.buffer_idx = b'.buffer_idx) (hl : inp.length = inp'.length)
+    (hst : R st st') :
+    (FixedBuffer.inputL N b inp funcL st).tr = (FixedBuffer.inputL N b' inp' funcL st').tr :=
+  (FixedBuffer.inputL_ni N b b' inp inp' funcL hf st st' ⟨hb, hi⟩ hl hst).tr
+
+end Hmac
 
 end Cx.Props.C19
